@@ -219,9 +219,32 @@ class Bicomplex(object):
         z02 = 0.5 * (z1 + 1j * z2) ** other
         return Bicomplex(z01 + z02, (z01 - z02) * 1j)
 
+    def _inverse(self):
+        """Return 1 / self = conjugate(self) / (z1**2 + z2**2)."""
+        z1, z2 = self.z1, self.z2
+        mod2 = z1 * z1 + z2 * z2
+        return Bicomplex(z1 / mod2, -z2 / mod2)
+
+    def _pow_integer(self, n):
+        """Return self ** n for integer n by repeated multiplication.
+
+        exp(n * log(self)) loses the small z2-part when real(z1) < 0: arg_c is then close to +/-pi.
+        """
+        base = self._inverse() if n < 0 else self
+        n = abs(n)
+        out = Bicomplex(np.ones_like(self.z1), np.zeros_like(self.z2))
+        while n > 0:
+            if n % 2 == 1:
+                out = out * base
+            base = base * base
+            n //= 2
+        return out
+
     def __pow__(self, other):
-        # TODO: Check correctness
-        out = (self.log() * other).exp()
+        if isinstance(other, (int, np.integer)) or (isinstance(other, float) and other.is_integer()):
+            out = self._pow_integer(int(other))
+        else:
+            out = (self.log() * other).exp()
         non_invertible = np.abs(self.mod_c()) < 1e-15
         if non_invertible.any():
             out[non_invertible] = self[non_invertible]._pow_singular(other)
